@@ -274,8 +274,8 @@ func sgCheckNegotiationNeeded(r *sgRun, pi int) {
 	// epochs: a transition into stable (successful set* landing on stable) starts a new epoch
 	epochStartFires := 0  // number of fires at the start of the current epoch
 	stableStartFires := 0 // number of fires at the last transition into stable
-	lastOfferStart := -1 // record index where the most recent exchange began
-	completedAfter := -1 // the most recent completed exchange began at this record index
+	lastOfferStart := -1  // record index where the most recent exchange began
+	completedAfter := -1  // the most recent completed exchange began at this record index
 	for _, rec := range r.recs {
 		if rec.Op.Peer != pi {
 			continue
